@@ -308,6 +308,8 @@ def _open_call_token(
     token_key: bytes,
     aad: bytes,
     token_ttl: int = 0,
+    *,
+    created_at_out: list[int] | None = None,
 ) -> tuple[bytes, str, bytes, bytes, bytes, str]:
     """Open and verify a call token.
 
@@ -316,6 +318,8 @@ def _open_call_token(
         token_key: 32-byte master AEAD key.
         aad: Associated data — must match the AAD used at seal time.
         token_ttl: Maximum token age in seconds; ``0`` disables expiry.
+        created_at_out: When given, the token's ``created_at`` is appended
+            to it (the cache bounds an entry's life by it).
 
     Returns:
         ``(call_state_bytes, call_state_type, schema_bytes, input_schema_bytes,
@@ -358,10 +362,11 @@ def _open_call_token(
     if payload_end != len(plaintext):
         raise _RpcHttpError(RuntimeError("Malformed call token"), status_code=HTTPStatus.BAD_REQUEST)
 
-    if token_ttl > 0:
-        created_at = struct.unpack_from("<Q", plaintext, 0)[0]
-        if int(time.time()) - created_at > token_ttl:
-            raise _RpcHttpError(RuntimeError("Call token expired"), status_code=HTTPStatus.BAD_REQUEST)
+    created_at: int = struct.unpack_from("<Q", plaintext, 0)[0]
+    if token_ttl > 0 and int(time.time()) - created_at > token_ttl:
+        raise _RpcHttpError(RuntimeError("Call token expired"), status_code=HTTPStatus.BAD_REQUEST)
+    if created_at_out is not None:
+        created_at_out.append(created_at)
 
     return (
         call_state_bytes,
@@ -394,7 +399,7 @@ class _ResolvedCall:
     :meth:`StreamState.bind_call_state` documents.
     """
 
-    __slots__ = ("call_state", "input_schema", "output_schema", "stream_id")
+    __slots__ = ("call_state", "created_at", "input_schema", "output_schema", "stream_id")
 
     def __init__(
         self,
@@ -402,11 +407,16 @@ class _ResolvedCall:
         output_schema: pa.Schema,
         input_schema: pa.Schema,
         stream_id: str,
+        created_at: int | None = None,
     ) -> None:
         self.call_state = call_state
         self.output_schema = output_schema
         self.input_schema = input_schema
         self.stream_id = stream_id
+        # The call token's ``created_at`` (``None``: tokens do not expire).
+        # A cache entry stands in for the token, so it must not outlive it;
+        # ``_CallStateCache.put`` anchors the entry's expiry here.
+        self.created_at = created_at
 
 
 class _CallStateCache:
@@ -456,8 +466,13 @@ class _CallStateCache:
     def put(self, call_id: bytes, auth: AuthContext | None, resolved: _ResolvedCall, now: float) -> None:
         """Record ``resolved`` under ``call_id``, evicting the oldest if full."""
         key = (call_id, self._identity(auth))
+        # Anchor the entry at the call token's creation, not at this put: a
+        # request that re-populates the cache late in the token's life must
+        # not buy the entry a fresh TTL, or a warm worker keeps serving a
+        # stream that every cold worker already rejects as expired.
+        anchor = now if resolved.created_at is None else min(now, float(resolved.created_at))
         with self._lock:
-            self._entries[key] = (now + self._ttl, resolved)
+            self._entries[key] = (anchor + self._ttl, resolved)
             self._entries.move_to_end(key)
             while len(self._entries) > self._max_entries:
                 self._entries.popitem(last=False)
